@@ -235,20 +235,20 @@ def outcome_call(result, test, op):
             d = make_details(p["details"])
             info["reason"] = p["reason"]
             info["details"] = d
-            m(test, p["reason"], details=d)
+            m(test, p["reason"], details=dict(d))
         else:
             d = make_details(p["details"])
             if p["form"] == "details+reasondetail":
                 d["reason"] = text_content(p["reason"])
                 info["reason"] = p["reason"]
             info["details"] = d
-            m(test, details=d)
+            m(test, details=dict(d))
     elif p["form"] == "none":
         m(test)
     elif p["form"] == "details":
         d = make_details(p["details"])
         info["details"] = d
-        m(test, details=d)
+        m(test, details=dict(d))
     else:
         ei = make_exc_info(p["exc"], op["marker"])
         info["err"] = ei
